@@ -26,7 +26,10 @@ fn run_check(id: &str, tier: Tier) -> i32 {
 		"C04" => checks::c04::run(tier),
 		"C05" => checks::c05::run(tier, &reg),
 		"C13" => checks::c13::run(tier, &reg),
+		"C14" => checks::c14::run(tier, &reg),
 		"C15" => checks::c15::run(tier),
+		"C18" => checks::c18::run(tier, &reg),
+		"C19" => checks::c19::run(tier, &reg),
 		_ => {
 			eprintln!("unknown property {}", id);
 			return 2;
@@ -48,7 +51,10 @@ fn run_replay(id: &str, path: &str) -> i32 {
 		"C04" => checks::c04::replay(case),
 		"C05" => checks::c05::replay(&reg, case),
 		"C13" => checks::c13::replay(&reg, case),
+		"C14" => checks::c14::replay(&reg, case),
 		"C15" => checks::c15::replay(case),
+		"C18" => checks::c18::replay(&reg, case),
+		"C19" => checks::c19::replay(&reg, case),
 		_ => {
 			eprintln!("no replayer for sub-check {}", sub);
 			return 2;
